@@ -486,12 +486,17 @@ class Interp(object):
             except BaseException as e:
                 if expect_too_many and type(e).__name__ == "TooManyCalls": return
                 if e is not exc: crashes.append("%s: %s" % (type(e).__name__, e))
-        th = threading.Thread(target=target, args=(False,)); th.start(); th.join(TIMEOUT)
-        if th.is_alive(): crashes.append("thread did not finish")
+        inline = op.get("c") == "i"   # the callable is run inline, while the originating action is still current (seeded change C01-4 / C06-4)
+        if inline: target(False)
+        else:
+            th = threading.Thread(target=target, args=(False,)); th.start(); th.join(TIMEOUT)
+            if th.is_alive(): crashes.append("thread did not finish")
         if E is not None:
             self.model_end(E, t, exc, {})
             if op.get("twice"):
-                th = threading.Thread(target=target, args=(True,)); th.start(); th.join(TIMEOUT)
+                if inline: target(True)
+                else:
+                    th = threading.Thread(target=target, args=(True,)); th.start(); th.join(TIMEOUT)
         for c in crashes: run.problem("crash", "preserve_context thread: " + c)
 
     def op_re(self, op):
@@ -760,7 +765,7 @@ def run_scenario(sc):
 # scenario enumeration
 # ----------------------------------------------------------------------------------------------------
 KINDS = [("sa", "w"), ("sa", "c"), ("sa", "r"), ("sa", "m"), ("st", "w"), ("st", "c"), ("T", "w"), ("T", "r"), ("Tt", "w"),
-         ("lc", None), ("lcm", None), ("ct", "w"), ("ct", "m"), ("pc", None)]
+         ("lc", None), ("lcm", None), ("ct", "w"), ("ct", "m"), ("pc", None), ("pc", "i")]
 EXITS = [None, "V", "B"]
 TEMPLATES = [None, ("c", 0), ("r", 0), ("c", 1), ("r", 1)]
 
@@ -846,6 +851,7 @@ def gen_action(r, depth, maxdepth):
         if r.random() < 0.4: op["kw"] = True
     if s in ("ct", "pc") and r.random() < 0.4: op["pre"] = gen_body(r, maxdepth, maxdepth) or [gen_msg(r)]
     if s == "pc" and r.random() < 0.3: op["twice"] = True
+    if s == "pc" and r.random() < 0.3: op["c"] = "i"
     return op
 
 
